@@ -116,7 +116,7 @@ Theorem best_mode_total maxdiff qs o : program_run P seeds Best maxdiff refs qs 
     let f2 := filter_subsequent (map set_rest rows2) in
     forall w, In w (o_main o) ->
       In w f1 \/ exists x y, In x f1 /\ In y f2 /\ qid x = qid w /\ qid y = qid w /\ rid x = rid y /\
-                             check_overlap x y maxdiff = true /\ join_rows x y = Ok w.
+                             check_overlap x y maxdiff = true /\ join_rows x y = Ok w /\ joined_ok w = true.
 Proof. intros H. apply program_run_inv in H. destruct H as (o' & H & ->). cbn [o_main].
   apply multi_execute_inv in H. destruct H as (rows1 & it1 & frags & rows2 & it2 & E1 & Ef & E2 & H). cbn zeta in H.
   destruct H as (joined & sep & Hr & ->). cbn [o_main].
@@ -129,7 +129,7 @@ Proof. intros H. apply program_run_inv in H. destruct H as (o' & H & ->). cbn [o
   split.
   - intros c. rewrite <- fs_ids. rewrite <- Hids1. split.
     + intros Hc. apply in_map_iff in Hc. destruct Hc as (w & <- & Hw). apply sort_by_in in Hw. apply in_app_or in Hw. destruct Hw as [Hw|Hw].
-      * destruct (HJ w Hw) as (x & y & Hx & _ & _ & _ & _ & Hj). apply join_rows_qid in Hj. destruct Hj as (-> & _). apply in_map. exact Hx.
+      * destruct (HJ w Hw) as (x & y & Hx & _ & _ & _ & _ & Hj & _). apply join_rows_qid in Hj. destruct Hj as (-> & _). apply in_map. exact Hx.
       * apply filter_In in Hw. apply in_map. apply Hw.
     + intros Hc. apply in_map_iff in Hc. destruct Hc as (x & <- & Hx).
       destruct (mem_z (qid x) (map qid joined)) eqn:Em.
@@ -137,7 +137,7 @@ Proof. intros H. apply program_run_inv in H. destruct H as (o' & H & ->). cbn [o
         apply sort_by_in. apply in_or_app. left. exact Hj.
       * apply in_map. apply sort_by_in. apply in_or_app. right. apply filter_In. split; [exact Hx|]. rewrite Em. reflexivity.
   - intros w Hw. apply fs_first_best, first_best_In in Hw. apply sort_by_in in Hw. apply in_app_or in Hw. destruct Hw as [Hw|Hw].
-    + right. destruct (HJ w Hw) as (x & y & Hx & Hy & Hq & Hrid & Hc & Hj). exists x, y.
+    + right. destruct (HJ w Hw) as (x & y & Hx & Hy & Hq & Hrid & Hc & Hj & Hk). exists x, y.
       pose proof (join_rows_qid _ _ _ Hj) as (Hqj & _). repeat split; try assumption; congruence.
     + left. apply filter_In in Hw. apply Hw.
 Qed.
